@@ -56,6 +56,10 @@ def make(name: str, *args):
         from .geometry import GeometryScenario
 
         return GeometryScenario()
+    if name == "C20":
+        from .survey import SurveyScenario
+
+        return SurveyScenario()
     if name == "C10":
         from .readonly import ReadOnlyScenario
 
@@ -70,5 +74,10 @@ def make(name: str, *args):
         return LifecycleScenario()
     if name in ("C05", "C09", "C12"):
         weights = {"C05": (3, 2), "C09": (3, 2), "C12": (3, 2)}[name]
-        return Mix(name, [(weights[0], WorldScenario(name)), (weights[1], ConcatScenario(name))])
+        parts = [(weights[0], WorldScenario(name)), (weights[1], ConcatScenario(name))]
+        if name == "C12":
+            from .survey import SurveyScenario
+
+            parts.append((1, SurveyScenario("C12")))     # copies of linked surveys (all survey class pairs)
+        return Mix(name, parts)
     raise KeyError(f"no scenario for {name}")
